@@ -778,3 +778,51 @@ def advertised_script(rng, name, seconds=8):
         ops += second([1, 2, 3], t) + ["ndrop 0"] * 4
     ops += ["nexpect own 1 p61", "nexpect own 3 p63", "nexpect notpending 1 p61", "nexpect mesh 1 2 3"]
     return Script(name, ops, {"suite": "node", "noshrink": True})
+
+
+def ipv6_packet(src, dst, extra=b""):
+    return bytes([0x60, 0, 0, 0, 0, len(extra), 59, 64]) + bytes.fromhex(src) + bytes.fromhex(dst) + extra
+
+
+def families_script(rng, name, seconds=4):
+    """claims of every address family in the nodes' own configuration (IPv4 and IPv6 prefixes on tun devices, MAC addresses on tap devices in
+    router mode), nested and overlapping; packets of both IP versions and frames routed by them"""
+    ports = [1, 2, 3]
+    ops = ["nkeys 3 %s" % rng.bytes(6).hex()]
+    v6 = lambda n: "fd0000000000000000000000000000%02x" % n
+    ops.append(node_line(1, key=0, ka="1", claims=["0a000001/32", v6(1) + "/128", "fd000000000000000000000000000000/64"]))
+    ops.append(node_line(2, key=1, ka="1", claims=["0a000002/32", v6(2) + "/128", "0a000000/8"]))
+    ops.append(node_line(3, key=2, ka="1", claims=["0a000003/32", v6(3) + "/128", "fd000000000000000000000000000000/8", "00000000/0"]))
+    ops += connect_chain(3)
+    t = 0
+    for _ in range(seconds):
+        t += 1
+        ops += second(ports, t)
+        for _ in range(4):
+            a = rng.choice(ports)
+            if rng.chance(1, 2):
+                dst = rng.choice([v6(1), v6(2), v6(3), v6(9), "fd0100000000000000000000000000aa", "fe800000000000000000000000000001"])
+                f = ipv6_packet(v6(a), dst, rng.bytes(rng.below(6)))
+            else:
+                f = ipv4_packet(ip4(a), rng.choice([ip4(1), ip4(2), ip4(3), "0a0000aa", "0b000001"]), rng.bytes(rng.below(6)))
+            ops += ["nframe %d %s" % (a, hx(f))] + drain(3)
+    return Script(name, ops, {"suite": "node"})
+
+
+def mac_claims_script(rng, name, seconds=3):
+    """tap devices in router mode: MAC addresses are claimed in the configuration, nothing is learned, unknown destinations are dropped"""
+    ports = [1, 2, 3]
+    macs = ["02000000000%d" % x for x in ports]
+    ops = ["nkeys 3 %s" % rng.bytes(6).hex()]
+    for p in ports:
+        ops.append(node_line(p, mode="router", dev="tap", key=p - 1, ka="1", claims=[macs[p - 1] + "/48"] + (["020000000000/40"] if p == 3 else [])))
+    ops += connect_chain(3)
+    t = 0
+    for _ in range(seconds):
+        t += 1
+        ops += second(ports, t)
+        for _ in range(4):
+            a = rng.choice(ports)
+            dst = rng.choice(macs + ["0200000000aa", "ffffffffffff", "0300000000aa"])
+            ops += ["nframe %d %s" % (a, hx(eth_frame(dst, macs[a - 1], rng.choice([None, None, 5]))))] + drain(3)
+    return Script(name, ops, {"suite": "node"})
